@@ -229,6 +229,43 @@ def gen_histories(tier):
                 yield {'scripts': list(tup), 'order': list(order), 'select': True}
 
 
+SPECIAL_SUFFIXES = ['all', 'inf', 'nan', 'new', 'nil']      # incarnation letters that read like words of the matcher language
+
+
+def eval_special_suffixes(case):
+    """One id reused ~9700 times: the labels whose letters spell `all`, `inf`, `nan`, `new`, `nil` (and their neighbours)
+    are labels like any other."""
+    import io
+    V = []
+    try:
+        variant = hc.VARIANTS['client']
+        first = letters.first(20000)
+        want_idx = sorted({first.index(w) + d for w in SPECIAL_SUFFIXES for d in (-1, 0, 1)})
+        n = max(want_idx) + 2
+        hist = hc.deep_chain(variant, n, 1)
+        lines, exps, ref = hc.render_history(hist, variant)
+        s = sut.Session()
+        s.parser.parse_all(io.StringIO(''.join(l + '\n' for l in lines)))
+        out, _ = s.take()
+        shown = [l for l in out if outparse.classify(l)[0] == 'message']
+        if len(shown) != len(lines):
+            V.append(Violation('labels.line_count', case, {'expected': len(lines), 'observed': len(shown)}))
+            return Eval(V)
+        for idx in want_idx:
+            lab = '3' + letters.word(idx)
+            want = [shown[i] for i, e in enumerate(exps)
+                    if e['target'].endswith('@' + lab) or any(l and l.endswith('@' + lab) for _, l in e['args'])
+                    or (e['destroyed'] and e['destroyed'][0].endswith('@' + lab))]
+            for spelling in ('A: ' + lab, lab):
+                got, err = listed(s, spelling, shown)
+                if got != want or err:
+                    V.append(Violation('labels.as_matcher', case, {'matcher': spelling, 'expected': want, 'observed': got[:5], 'err': err}))
+                    break
+    except Exception:
+        V.append(sut.exc_violation(case))
+    return Eval(V, outcome=len(V), nontrivial=True, transitions=len(SPECIAL_SUFFIXES) * 6)
+
+
 def eval_many_connections(case):
     """A session with n connections: names A..Z, AA.. are distinct and each `X:` selects its own lines."""
     V = []
@@ -267,6 +304,9 @@ def run(run, tier, seed):
     res = explore.prod(lambda: gen_histories(tier), eval_history, seed=seed,
                        bound={'history_depth': 3 if tier == 'quick' else 4})
     run.add_part('labels_as_matchers', res)
+    res0 = explore.prod(lambda: iter([{'special_suffixes': SPECIAL_SUFFIXES}]), eval_special_suffixes, workers=1,
+                        bound={'suffixes': SPECIAL_SUFFIXES})
+    run.add_part('suffixes_that_read_like_words', res0)
     res = explore.prod(lambda: iter([{'connections': 30 if tier == 'quick' else 60}]), eval_many_connections, workers=1)
     run.add_part('many_connections', res)
     # connections that come and go (connection-id interface): names stay distinct and `X:` selects its own messages
@@ -290,6 +330,8 @@ def replay(case):
         return eval_generator(case).viols
     if 'connections' in case:
         return eval_many_connections(case).viols
+    if 'special_suffixes' in case:
+        return eval_special_suffixes(case).viols
     if 'sink_history' in case:
         return c04.run_sink(case['sink_history'])[0]
     return eval_history(case).viols
